@@ -124,6 +124,15 @@ class ParsedAnsiControlSequenceString:
         '''
         return self._s
 
+def _plain_str(s:str) -> str:
+    '''
+    The plain str a str subclass stands for: the text of an AnsiStr (its raw str value is its rendering and it
+    overrides split(), strip() and ==), the raw string of any other subclass.
+    '''
+    if type(s) is str:
+        return s
+    return str.__str__(getattr(s, 'base_str', s))
+
 def parse_graphic_sequence(
     sequence:Union[str,List[Union[int,str]]],
     add_erroneous:bool=False
@@ -140,10 +149,10 @@ def parse_graphic_sequence(
         return [AnsiSetting(AnsiParam.RESET.value)]
     output = []
     if isinstance(sequence, str):
-        items = [item.strip() or '0' for item in sequence.split(ansi_sep)]
+        items = [item.strip() or '0' for item in _plain_str(sequence).split(ansi_sep)]
     else:
         # Work on a copy (the caller's list is not to be modified); an empty item means 0, as in the string form
-        items = [(item.strip() or '0') if isinstance(item, str) else item for item in sequence]
+        items = [(_plain_str(item).strip() or '0') if isinstance(item, str) else item for item in sequence]
     # Attempt to make each value an integer
     for idx, value in enumerate(items):
         if isinstance(value, str):
